@@ -324,7 +324,8 @@ def value_type_cases():
         shutil.copyfile(empty_template(tmp), db)
         common = dict(material='pgv_val_m', adsorbate='pgv_val_a', temperature=300, pressure_mode='absolute', pressure_unit='bar', loading_basis='molar',
                       loading_unit='mmol', material_basis='mass', material_unit='g', temperature_unit='K')
-        for tag, kw in (('float', dict(ratio=3.5)), ('text', dict(note='x3')), ('true', dict(flag=True)), ('integer', dict(count=3)), ('negative_integer', dict(offset=-2))):
+        for tag, kw in (('float', dict(ratio=3.5)), ('text', dict(note='x3')), ('true', dict(flag=True)), ('integer', dict(count=3)), ('negative_integer', dict(offset=-2)),
+                        ('text_that_reads_as_a_number', dict(batch='007'))):
             i = pygaps.core.baseisotherm.BaseIsotherm(**kw, **common)
             S.isotherm_to_db(i, db_path=db, verbose=False)
             back = [x for x in S.isotherms_from_db(db_path=db, verbose=False)]
@@ -489,6 +490,65 @@ def refused_midway_cases():
         shutil.rmtree(tmp, ignore_errors=True)
 
 
+def criteria_cases():
+    """retrieval by criteria on every column of the isotherm table (material, adsorbate, temperature, identifier, kind of isotherm,
+    alone and combined, matching and not): exactly the stored isotherms a dictionary model selects come back, and a deletion through
+    what an identifier query returned removes exactly that isotherm"""
+    import pygaps
+    import pygaps.modelling as pgm
+    import pygaps.parsing.sqlite as S
+    from pgv.checks import c09
+    pygaps.logger.disabled = True
+    tmp = tempfile.mkdtemp(prefix='pgv-c08c-')
+    reg0 = c09._registries()
+    try:
+        db = os.path.join(tmp, 'crit.db')
+        shutil.copyfile(empty_template(tmp), db)
+        units = dict(pressure_mode='absolute', pressure_unit='bar', loading_basis='molar', loading_unit='mmol', material_basis='mass', material_unit='g', temperature_unit='K')
+        mk_model = lambda: pgm.get_isotherm_model('Langmuir', parameters={'K': 2.0, 'n_m': 5.0}, pressure_range=(0.0, 1.0), loading_range=(0.0, 4.0), rmse=0.0)
+        isos = [pygaps.core.baseisotherm.BaseIsotherm(material='pgv_cm1', adsorbate='pgv_ca1', temperature=77.0, **units),
+                pygaps.PointIsotherm(pressure=[0.1, 0.2, 0.4], loading=[1.0, 1.5, 2.0], material='pgv_cm1', adsorbate='pgv_ca2', temperature=87.0, **units),
+                pygaps.ModelIsotherm(model=mk_model(), material='pgv_cm2', adsorbate='pgv_ca1', temperature=77.0, **units),
+                pygaps.PointIsotherm(pressure=[0.1, 0.3], loading=[1.0, 2.5], material='pgv_cm2', adsorbate='pgv_ca2', temperature=298.0, **units)]
+        for i in isos:
+            S.isotherm_to_db(i, db_path=db, verbose=False)
+        row = lambda i: {'id': i.iso_id, 'iso_type': {'BaseIsotherm': 'isotherm'}.get(type(i).__name__, type(i).__name__.lower()), 'material': str(i.material), 'adsorbate': str(i.adsorbate), 'temperature': i.temperature}
+        queries = [{'material': 'pgv_cm1'}, {'adsorbate': 'pgv_ca2'}, {'temperature': 77.0}, {'temperature': 298}, {'id': isos[1].iso_id}, {'id': isos[2].iso_id},
+                   {'id': 'no such identifier'}, {'iso_type': 'pointisotherm'}, {'iso_type': 'modelisotherm'}, {'iso_type': 'isotherm'},
+                   {'material': 'pgv_cm2', 'adsorbate': 'pgv_ca2'}, {'material': 'pgv_cm1', 'temperature': 87.0}, {'iso_type': 'pointisotherm', 'material': 'pgv_cm2'},
+                   {'material': 'pgv_nobody'}, {'adsorbate': 'pgv_ca1', 'temperature': 298.0}]
+        for q in queries:
+            want = sorted(i.iso_id for i in isos if all(row(i)[k] == v for k, v in q.items()))
+            try:
+                got = sorted(i.iso_id for i in S.isotherms_from_db(criteria=dict(q), db_path=db, verbose=False))
+                ok, detail = got == want, '' if got == want else f"{len(got)} isotherm(s) returned, the model selects {len(want)}"
+            except Exception as exc:
+                ok, detail = False, f"{type(exc).__name__}: {exc}"[:140]
+            label = '+'.join(f"{k}={'<id of a stored one>' if k == 'id' and v != 'no such identifier' else v}" for k, v in q.items())
+            yield {'name': f"one_file|retrieval_by_criteria|{label}", 'ok': ok, 'detail': detail, 'ops': None}
+        probs = []
+        try:
+            for found in S.isotherms_from_db(criteria={'id': isos[3].iso_id}, db_path=db, verbose=False):
+                S.isotherm_delete_db(found, db_path=db, verbose=False)
+            left = sorted(i.iso_id for i in S.isotherms_from_db(db_path=db, verbose=False))
+            if left != sorted(i.iso_id for i in isos[:3]):
+                probs.append(f"{len(left)} isotherm(s) left, expected the other 3")
+        except Exception as exc:
+            probs.append(f"{type(exc).__name__}: {exc}"[:140])
+        yield {'name': 'one_file|retrieval_by_criteria|deleted_through_an_identifier_query', 'ok': not probs, 'detail': '; '.join(probs), 'ops': None}
+    finally:
+        c09._restore(reg0)
+        shutil.rmtree(tmp, ignore_errors=True)
+
+
+@replayer('c08.criteria')
+def _criteria(spec, model):
+    for r in criteria_cases():
+        if r['name'] == spec['name']:
+            return {'confirmed': not r['ok'], 'observed': r['detail'], 'expected': 'exactly the stored isotherms that match the criteria'}
+    return {'confirmed': False, 'error': 'case not found'}
+
+
 @replayer('c08.refused_midway')
 def _refused_midway(spec, model):
     bad = [r for r in refused_midway_cases() if not r['ok']]
@@ -574,6 +634,7 @@ def history_cases(seed, thorough=False):
     yield from fresh_process_cases()
     yield from refused_midway_cases()
     yield from odd_path_cases()
+    yield from criteria_cases()
     hs, two = histories(seed, thorough)
     items = [(1, h) for h in hs] + [(2, h) for h in two]
     res, crashes = par.pmap(run_chunk, par.chunks(items, 32))
